@@ -338,8 +338,64 @@ func SeqsBytes(pats []Seq) [][]byte {
 	return out
 }
 
-// Stream picks a generator stream: 0 main (~80%), 1 wide (~8%), 2 malformed (~12%).
-func Stream(r *core.Rand) int { return r.Pick(80, 8, 12) }
+// GenDeepPatterns: 20–60 short patterns (1–5 units) over a 2–3 letter alphabet: a
+// bushy trie several levels deep, so that the breadth-first queue of BuildFailureLinks
+// grows 10→20→40(→80) while it is wrapped (head%cap != 0) and nodes of three depths are
+// queued at once; the order in which the ring is copied on growth then decides whether a
+// node is processed before the shallower nodes its failure walk needs. Most patterns
+// are suffixes / extensions of each other, so wrong failure links lose occurrences.
+func GenDeepPatterns(r *core.Rand) ([]Seq, Unit) {
+	var alpha []string
+	switch r.Pick(45, 25, 20, 10) {
+	case 0:
+		alpha = []string{"a", "b", "c"}
+	case 1:
+		alpha = []string{"a", "b"}
+	case 2:
+		alpha = []string{"a", "b", alphabet[3+r.Intn(3)]}
+	default:
+		alpha = []string{"a", alphabet[3+r.Intn(3)], "c", "b"}
+	}
+	u := func(r *core.Rand) string { return alpha[r.Intn(len(alpha))] }
+	total := r.Range(20, 60)
+	maxLen := r.Range(3, 5)
+	if r.Chance(12) {
+		// big: three or four levels with more than 20 nodes each, so that after two
+		// wrapped growths nodes of three depths are queued together
+		total, maxLen = r.Range(60, 100), 6
+	}
+	var pats []Seq
+	seen := map[string]bool{}
+	for tries := 0; len(pats) < total && tries < 8*total; tries++ {
+		var p Seq
+		if len(pats) > 0 && r.Chance(35) {
+			base := pats[r.Intn(len(pats))]
+			switch r.Intn(3) {
+			case 0: // proper suffix (the target of a failure link)
+				p = base[r.Intn(len(base)):].Clone()
+			case 1: // extension
+				p = append(base.Clone(), u(r))
+			default: // sibling
+				p = append(base[:len(base)-1].Clone(), u(r))
+			}
+			if len(p) > maxLen {
+				p = p[len(p)-maxLen:]
+			}
+		} else {
+			p = RandSeq(r, u, 1, maxLen)
+		}
+		k := strings.Join(p, "")
+		if seen[k] && !r.Chance(5) { // few duplicates: the point is many nodes
+			continue
+		}
+		seen[k] = true
+		pats = append(pats, p)
+	}
+	return pats, u
+}
+
+// Stream picks a generator stream: 0 main (~74%), 1 wide (~7%), 2 malformed (~12%), 3 deep (~7%).
+func Stream(r *core.Rand) int { return r.Pick(74, 7, 12, 7) }
 
 // GenTrie returns the patterns of one case, the unit picker for its texts and the tag.
 func GenTrie(r *core.Rand) (pats []Seq, u Unit, tag string) {
@@ -349,6 +405,9 @@ func GenTrie(r *core.Rand) (pats []Seq, u Unit, tag string) {
 	case 1:
 		pats, u = GenWidePatterns(r)
 		return pats, u, "wide"
+	case 3:
+		pats, u = GenDeepPatterns(r)
+		return pats, u, "deep"
 	default:
 		u = MalUnit
 		if r.Chance(25) {
